@@ -8,8 +8,8 @@ mkdir -p .build evidence replays
 (cd engine && go build -tags verif -o ../.build/vcheck.setup ./cmd/vcheck)
 rm -f .build/vcheck.setup
 if [ -x bin/genoverlay.sh ]; then
-  OV=$(bin/genoverlay.sh)
-  (cd engine && go build -tags verif -overlay "$OV" -o ../.build/vcheck.setup ./cmd/vcheck)
-  rm -f .build/vcheck.setup
+  OV=$(bin/genoverlay.sh "$PWD/.build/overlay.setup")
+  (cd engine && go build -tags "verif verifsched" -overlay "$OV" -o ../.build/vcheck.setup ./cmd/vcheck)
+  rm -rf .build/vcheck.setup .build/overlay.setup
 fi
 echo setup ok
